@@ -36,12 +36,15 @@ def run(ctx):
     # ---- routes on scenario calendars: a year around 2000 and the cut-over year 1582
     def scenario(Y, ny):
         return Y, typical_terms(range(Y - 2, Y + 3)), synthetic_months(Y - 1, ny, 3, leap={Y: 4}, prev_months=3)
-    scen = [scenario(2000, CAL.jdn(1999, 2, 16)), scenario(1582, CAL.jdn(1581, 2, 4))]
+    scen = [scenario(2000, CAL.jdn(1999, 2, 16)), scenario(1582, CAL.jdn(1581, 2, 4)),
+            # a leap 12th month at the end of the previous lunar year: the civil days of January / February sit in months 11, 12, leap 12 and 1
+            (2000, typical_terms(range(1998, 2003)), synthetic_months(1999, CAL.jdn(1999, 1, 24), 2, leap={1999: 12}, prev_months=3, auto_leap=False))]
 
     def routes(x):
         si, n = x
         Y, terms, months = scen[si]
         cm = CalModel(I, terms, months)
+        del I.overrides['SolarDay::get_lunar_day']      # the repository's own search for the lunar month (backwards and forwards over the month records)
         sd = cm.solar_day_n(n)
         lunar = t.m(sd, 'get_lunar_day')
         a = t.name(t.m(lunar, 'get_sixty_cycle'))                              # via the lunar date
@@ -64,7 +67,8 @@ def run(ctx):
         si, n = x
         pn = G.sixty((n + 49) % 60)
         return (pn, pn, pn, pn, pn, (n + 1) % 7, (n + 1) % 7, n, G.sixty((n + 50) % 60), pn, pn)
-    dom2 = [(0, n) for n in range(CAL.jdn(1999, 12, 20), CAL.jdn(2001, 1, 15))] + [(1, n) for n in range(CAL.jdn(1582, 9, 1), CAL.jdn(1582, 11, 30))]
+    dom2 = [(0, n) for n in range(CAL.jdn(1999, 12, 20), CAL.jdn(2001, 1, 15))] + [(1, n) for n in range(CAL.jdn(1582, 9, 1), CAL.jdn(1582, 11, 30))] \
+        + [(2, n) for n in range(CAL.jdn(1999, 11, 25), CAL.jdn(2000, 3, 20))]
     table(ctx, 'PETE-SCENARIO', 'day-pillar:all-routes', dom2, routes, routes_orc,
           'the pillar is the same via the lunar date, the sexagenary-day view, the instant view and the civil date, and advances by one per civil day across lunar month ends, year ends and the 1582 cut-over; same for the weekday',
           lambda x: '%d-%02d-%02d' % CAL.from_jdn(x[1]), fn_site(p, 'SixtyCycleDay::from_solar_day'))
